@@ -141,7 +141,7 @@ def add_edges(spec, rnd, uniform):
             if rnd.random() < 0.4 and S is T or (sg == tg):
                 src = [S[(i + 1) % len(S)] for i in range(len(S))][:k]     # ring
             pairs = list(zip(src, T[:k]))
-            order = rnd.choice(['node', 'shuffled', 'interior'])
+            order = rnd.choice(['node', 'shuffled', 'interior'] + (['interior', 'interior'] if len(T) >= 10 else []))
             if order == 'shuffled':
                 rnd.shuffle(pairs)
             elif order == 'interior' and len(pairs) > 3:
@@ -163,7 +163,7 @@ def add_edges(spec, rnd, uniform):
                 if not got and (uniform or rnd.random() < 0.5):
                     got = [(rnd.choice(S), b)]
                 pairs += got
-        if not uniform and rnd.random() < 0.5 and len(pairs) > 1:
+        if not uniform and rnd.random() < 0.5 and len(pairs) > 1 and not (pattern == 'perm' and len(T) >= 10):
             pairs = rnd.sample(pairs, rnd.randint(1, len(pairs)))
         # weights of one bundle: mixed magnitudes, or all of one (very small) magnitude as in SI-unit models
         wkind = rnd.choice([None, None, None, None, None, 'nano', 'tiny']) if len(T) < 10 else rnd.choice([None, None, 'nano', 'tiny'])
